@@ -58,7 +58,7 @@ class CryptoID(BaseClient):
         for a in addresslist:
             res = self.compose_request('getbalance', variables={'a': a.address})
             balance += float(res)
-        return int(balance * self.units)
+        return int(round(balance * self.units))
 
     def getutxos(self, address, after_txid='', limit=MAX_TRANSACTIONS):
         if not self.api_key:
